@@ -7,7 +7,7 @@ import numpy
 from lib import common as C
 
 PROP = "C09"
-PROPS_FILES = ["Props/C09.v"]
+PROPS_FILES = ["Props/C09.v", "Props/C09_task.v"]
 ASSUMPTIONS = [
   "exact arithmetic over Q: correspondence inputs are small integers / dyadic rationals so every double operation of the "
   "implementation that reaches a decision (rounding, nearest element, arg-max, constraint test) is exact",
@@ -259,10 +259,21 @@ def run_impl(kind, inp, rng=None):
   if kind == "encode":
     tc = None if inp["task"] is None else numpy.array([inp["task"]], dtype=float)
     try:
-      out = V.form_one_hot_points_with_tasks(d, [list(inp["p"])], tc)
+      form = inp.get("form", "lists")   # the numeric form the caller's points arrive in: a list of lists, an array (integer typed when every entry is an int), an array of doubles
+      arg = numpy.array([list(inp["p"])]) if form == "array" else numpy.array([list(inp["p"])], dtype=float) if form == "float_array" else [list(inp["p"])]
+      out = V.form_one_hot_points_with_tasks(d, arg, tc)
     except AssertionError:
       return dict(error="AssertionError")
     return dict(out=[float(v) for v in out[0]])
+  if kind == "encode_task":
+    form = inp.get("form", "lists")
+    arg = numpy.array([list(inp["p"])]) if form == "array" else numpy.array([list(inp["p"])], dtype=float) if form == "float_array" else [list(inp["p"])]
+    enc = V.form_one_hot_points_with_tasks(d, arg, numpy.array([inp["c"]], dtype=float))
+    dt = G.form_augmented_domain(d, task_cost_populated=True, task_options=numpy.array(inp["opts"], dtype=float))
+    rounded = dt.round_one_hot_points_quantized_values(dt.round_one_hot_points_categorical_values(dt.round_one_hot_points_integer_values(numpy.array(enc, dtype=float))))
+    snapped = G.snap_continuous_tasks_to_discrete_options(rounded[:, -1], numpy.array(inp["opts"], dtype=float))
+    return dict(out=[float(v) for v in enc[0]], box=[[float(a), float(b)] for a, b in dt.one_hot_domain.domain_bounds],
+                rounded=[float(v) for v in rounded[0]], snapped=float(snapped[0]))
   if kind == "round":
     xs = numpy.array(inp["xs"], dtype=float)
     x0 = xs.copy()
@@ -315,7 +326,7 @@ def run_impl(kind, inp, rng=None):
 
 def gen_case(rng):
   kind = rng.choice(["box", "encode", "encode", "round", "round", "decode", "decode", "decode", "decode", "decode_ic", "decode_ic",
-                     "intnbrs", "feasnbrs", "snapfeas", "lsto", "lsback", "task", "nbrint", "nbrcat", "encode_err", "decode_err"])
+                     "intnbrs", "feasnbrs", "snapfeas", "lsto", "lsback", "task", "nbrint", "nbrcat", "encode_err", "decode_err", "encode_task"])
   if kind == "task":
     opts = sorted(rng.sample([0.1, 0.125, 0.25, 0.3, 0.5, 0.75, 1.0], rng.randint(1, 4)))
     if rng.random() < 0.2:
@@ -324,6 +335,20 @@ def gen_case(rng):
     return "task", dict(costs=costs, options=opts)
   if kind == "box":
     return kind, dict(dom=gen_domain(rng, rng.choice([0, 0, 1]), rng.choice([0, 0, 1])))
+  if kind == "encode_task":
+    # a valid point with its task cost through the views' encode entry point, in every numeric form, then the domain with the task dimension;
+    # discrete-only domains (whose point arrays are integer typed) as often as mixed ones; the cost is one of the options (rarely not)
+    if rng.random() < 0.5:
+      comps = [gen_component(rng, rng.choice(["int", "categorical", "quantized"])) for _ in range(rng.randint(1, 4))]
+      for c in comps:
+        if c["var_type"] == "quantized":
+          c["elements"] = sorted(rng.sample([-4, -3, -1, 0, 1, 2, 4, 9, 16], len(c["elements"])))
+      dom = dict(comps=comps, cons=[])
+    else:
+      dom = gen_domain(rng, 0, rng.choice([0, 0, 1]))
+    opts = sorted(rng.sample([0.125, 0.25, 0.5, 0.75, 1.0], rng.randint(2, 4)))
+    return kind, dict(dom=dom, p=gen_valid_point(rng, dom), opts=opts, c=rng.choice(opts) if rng.random() < 0.9 else 0.375,
+                      form=rng.choice(["lists", "array", "float_array"]))
   if kind in ("encode", "encode_err"):
     dom = gen_domain(rng, 0, rng.choice([0, 0, 1]), need=("categorical",) if kind == "encode_err" or rng.random() < 0.7 else ())
     p = gen_valid_point(rng, dom)
@@ -334,7 +359,7 @@ def gen_case(rng):
       i = rng.randrange(len(p))
       if dom["comps"][i]["var_type"] != "categorical":
         p[i] = p[i] + 0.375
-    return "encode", dict(dom=dom, p=p, task=rng.choice([None, None, 0.5, 1.0]))
+    return "encode", dict(dom=dom, p=p, task=rng.choice([None, None, 0.5, 1.0, 0.25]), form=rng.choice(["lists", "lists", "array", "float_array"]))
   if kind == "round":
     dom = gen_domain(rng, 0, 0)
     xs = [gen_relaxed_point(rng, dom) for _ in range(rng.randint(1, 4))]
@@ -456,6 +481,9 @@ def coq_case(kind, inp, out):
     if "error" in out:
       return f"CEncodeErr {d} {row_lit(inp['p'])}"
     return f"CEncode {d} {row_lit(inp['p'])} {C.optlit(inp['task'], C.qlit)} {row_lit(out['out'])}"
+  if kind == "encode_task":
+    box = C.listlit([f"({C.qlit(a)}, {C.qlit(b)})" for a, b in out["box"]])
+    return f"CEncodeTask {d} {row_lit(inp['opts'])} {row_lit(inp['p'])} {C.qlit(inp['c'])} {row_lit(out['out'])} {box} {row_lit(out['rounded'])} {C.qlit(out['snapped'])}"
   if kind == "round":
     return f"CRound {inp['which']}%nat {d} {rows_lit(inp['xs'])} {rows_lit(out['out'])}"
   if kind == "decode":
@@ -618,6 +646,51 @@ def oracle(kind, inp):
       if len(q) != 1 or [float(v) for v in q[0]] != [float(v) for v in p]:
         return fail("roundtrip:decode-encode", f"decode(encode(p)) != p for the valid point {p}", numpy.asarray(q).tolist(), list(p))
       return None
+    if kind == "encode":
+      # the encode entry point of the views (points of a request + their task costs -> relaxed one-hot rows), as the property states it: the
+      # rows are the one-hot encodings, the task cost rides along unchanged, and decoding (task dimension included, then snapping the cost to
+      # an option) returns the same points and the same costs - whatever numeric type the caller's points have: lists of Python ints,
+      # an integer-typed array (what a discrete-only domain produces), a float array, a list of row arrays
+      pts, form, costs, opts = inp["points"], inp.get("form", "lists"), inp.get("costs"), inp.get("options")
+      if form == "int_array":
+        arg = numpy.array(pts)
+      elif form == "float_array":
+        arg = numpy.array(pts, dtype=float)
+      elif form == "row_arrays":
+        arg = [numpy.array(q) for q in pts]
+      else:
+        arg = [list(q) for q in pts]
+      enc = V.form_one_hot_points_with_tasks(d, arg, None if costs is None else numpy.array(costs, dtype=float))
+      want = []
+      for j, q in enumerate(pts):
+        row = []
+        for v, c in zip(q, comps):
+          row.extend([1.0 if v == e else 0.0 for e in c["elements"]] if c["var_type"] == "categorical" else [float(v)])
+        want.append(row + ([float(costs[j])] if costs is not None else []))
+      got = [[float(v) for v in r] for r in numpy.asarray(enc).tolist()]
+      if len(got) != len(want) or any(len(a) != len(b) for a, b in zip(got, want)):
+        return fail("encode:shape", "encoded array has the wrong shape", got, want)
+      if costs is not None and any(a[-1] != b[-1] for a, b in zip(got, want)):
+        return fail("encode:task-cost-changed", f"task costs {costs} were encoded as {[a[-1] for a in got]} ({form})", got, want)
+      if got != want:
+        return fail("encode:not-the-one-hot-encoding", f"encoded rows differ from the one-hot encoding of the points ({form})", got, want)
+      dd = d if costs is None else G.form_augmented_domain(d, task_cost_populated=True, task_options=numpy.array(opts, dtype=float))
+      box = dd.one_hot_domain.domain_bounds
+      for r in got:
+        if len(r) != len(box) or any(not (lo <= v <= hi) for v, (lo, hi) in zip(r, box)):
+          return fail("encode:outside-relaxed-box", f"an encoded row leaves the relaxed box (task dimension included)", r, [list(map(float, b)) for b in box])
+      numpy.random.seed(inp["seed"])
+      q = numpy.asarray(dd.map_one_hot_points_to_categorical(enc, temperature=inp["T"]), dtype=float)
+      back = q[:, :len(comps)].tolist()
+      if back != [[float(v) for v in r] for r in pts]:
+        return fail("roundtrip:decode-encode", "decode(encode(points)) != points through the views' encode entry point", back, pts)
+      if costs is not None:
+        snapped = [float(v) for v in G.snap_continuous_tasks_to_discrete_options(q[:, -1], numpy.array(opts, dtype=float))]
+        for c, o in zip(costs, snapped):   # a nearest option of the encoded cost: the cost itself when it is one of the options
+          best = min(abs(F(c) - F(t)) for t in opts)
+          if len(snapped) != len(costs) or o not in [float(t) for t in opts] or abs(F(c) - F(o)) > best + ulp_tol(c, *opts):
+            return fail("roundtrip:task-cost", f"task costs {costs} came back as {snapped} after encode / decode / snap: not nearest options of {opts}", snapped, costs)
+      return None
     if kind == "decode":
       xs = numpy.array(inp["xs"], dtype=float)
       numpy.random.seed(inp["seed"])
@@ -775,10 +848,36 @@ def real_relaxed(rng, dom):
   return x
 
 
+def gen_encode_case(rng):
+  """points of a request as the views encode them: 1-5 valid points, with or without task costs, on discrete-only domains (ints, categoricals,
+  integer-valued grids: the natural point arrays are integer typed) and on mixed ones, in every numeric form a caller can hand over"""
+  discrete = rng.random() < 0.6
+  comps = []
+  for _ in range(rng.randint(1, 6)):
+    kd = rng.choice(["int", "categorical", "quantized"] if discrete else ["double", "int", "categorical", "quantized"])
+    c = real_component(rng, kd)
+    if kd == "quantized" and (discrete or rng.random() < 0.3):
+      c = dict(var_type="quantized", elements=sorted(rng.sample(range(-20, 40), rng.randint(2, 6))))
+    comps.append(c)
+  dom = dict(comps=comps, cons=[])
+  pts = [gen_valid_point(rng, dom, real=True) for _ in range(rng.randint(1, 5))]
+  integral = all(isinstance(v, int) for q in pts for v in q)
+  form = rng.choice(["lists", "int_array", "row_arrays", "float_array"] if integral else ["lists", "float_array", "row_arrays"])
+  costs = opts = None
+  if rng.random() < 0.7:
+    # at least two distinct options: with one, the task dimension of the augmented domain is a zero-width interval, which the domain constructor refuses
+    opts = sorted({round(rng.uniform(0.01, 0.95), rng.randint(1, 3)) for _ in range(rng.randint(1, 4))} | {1.0})
+    costs = [rng.choice(opts) for _ in pts]
+  T = rng.choice([None, None, 0, 0.2, 1.0, 0.01, 0.003, 50.0])
+  return "encode", dict(dom=dom, points=pts, form=form, costs=costs, options=opts, T=T, seed=rng.randint(0, 2**31 - 1))
+
+
 def gen_search_case(rng):
   kind = rng.choice(["roundtrip", "roundtrip", "decode", "decode", "decode_ic", "detround", "ls", "nbr", "task"])
   if rng.random() < 0.04:
     return gen_many_ints(rng)
+  if rng.random() < 0.08:
+    return gen_encode_case(rng)
   if kind == "task":
     opts = sorted({round(rng.uniform(0.01, 1), rng.randint(1, 4)) for _ in range(rng.randint(1, 5))})
     return kind, dict(costs=[rng.choice([rng.random(), rng.choice(opts), (opts[0] + opts[-1]) / 2]) for _ in range(rng.randint(1, 6))], options=opts)
@@ -887,6 +986,13 @@ def hint_to_search(h):
     out.append(("task", dict(costs=inp["costs"], options=inp["options"])))
   elif kind == "encode" and "dom" in inp:
     out.append(("roundtrip", dict(dom=inp["dom"], p=inp["p"], T=None, seed=1)))
+    task = inp.get("task")
+    for form in ["lists"] + (["int_array"] if all(isinstance(v, int) for v in inp["p"]) else []) + ["float_array"]:
+      out.append(("encode", dict(dom=dict(comps=inp["dom"]["comps"], cons=[]), points=[list(inp["p"])], form=form, costs=None if task is None else [task],
+                                 options=None if task is None else sorted({0.125, float(task), 1.0}), T=None, seed=1)))
+  elif kind == "encode_task":
+    for form in ["lists"] + (["int_array"] if all(isinstance(v, int) for v in inp["p"]) else []) + ["float_array"]:
+      out.append(("encode", dict(dom=dict(comps=inp["dom"]["comps"], cons=[]), points=[list(inp["p"])], form=form, costs=[inp["c"]], options=list(inp["opts"]), T=None, seed=1)))
   elif kind in ("decode", "snapfeas") and not inp.get("malformed"):
     for s in range(4):
       out.append(("decode", dict(dom=inp["dom"], xs=inp["xs"], T=inp.get("T"), seed=s)))
@@ -914,6 +1020,10 @@ def hint_to_search(h):
 
 def valid_for_oracle(kind, inp):
   """The roundtrip law is stated for valid points only."""
+  if kind == "encode":   # valid points; a task cost inside the range of the options (the task dimension of the relaxed box)
+    if inp.get("costs") is not None and any(not (min(inp["options"]) <= c <= max(inp["options"])) for c in inp["costs"]):
+      return False
+    return all(valid_for_oracle("roundtrip", dict(dom=inp["dom"], p=q)) for q in inp["points"])
   if kind != "roundtrip":
     return True
   for v, c in zip(inp["p"], inp["dom"]["comps"]):
@@ -968,3 +1078,10 @@ DESIGN_REF = "DESIGN.md section 7, C09"
 # --- second build round: additions to the claimed level
 LEVEL_TEXT += ("; stochastic-decode round trip iff every draw lies in its window (two-sided 1e-300 tails), completeness of the integer-feasible snap, "
                "exact enumeration of the categorical neighbour lattice")
+
+# --- gap round (seeded C09_m11): additions to the claimed level
+LEVEL_TEXT += ("; the task-cost column of the views' encode entry point: appending the cost is the encoding in the domain with the task dimension, the encoded row of a valid "
+               "point lies in the relaxed box, is a fixed point of the rounding functions, decodes to the point with its cost, and a cost that is one of the options snaps to itself "
+               "(Props/C09_task.v; tied by exact correspondence through form_one_hot_points_with_tasks and form_augmented_domain on points handed over as lists of ints, integer-typed "
+               "arrays and float arrays); the searcher states the same round trip on batches of points in every numeric form (discrete-only domains included) and re-evaluates "
+               "disagreeing encode cases with their task cost")
